@@ -104,6 +104,17 @@ CHECKS["C02"] = {
     "note": TB + "; the dialect is the grammar stated in DESIGN 3.3; the derivation generator docgen.py",
 }
 
+CHECKS["C04"] = {
+    "text": "MC_Neighbour proves on the specification, for 6 well-formed prefixes D1 x every middle X (13 'in the middle of "
+            "something' prefixes x all suffixes of <= 3/4 steps over the 17-symbol alphabet: 5.2e4 / 8e5 sequences) x 7 "
+            "well-formed suffixes D2, that blocks(D1 X NL D2) begins with blocks(D1) and ends with blocks(D2) shifted "
+            "(InvPrefix, InvSuffix), together with the lemmas PrefixStable and Resync of MC_Splitter; every explored X is "
+            "concretised and the same two equalities are required of the real parser for the pool pairs; random derivations "
+            "with truncated/corrupted derivations in between and plain concatenations extend this to long inputs.",
+    "ref": "6/C04", "technique": "TLA+ spec (BibSplitter.tla/MC_Neighbour.tla) model-checked with TLC + bounded-exhaustive replay of the same triples into the code",
+    "note": TB + "; blocks are compared through the public projection, duplicate-key wrapping ignored",
+}
+
 NOT_APPLICABLE = {}
 for _e in ENGINES:
     _e["serves_properties"] = sorted(CHECKS)
